@@ -20,6 +20,8 @@ EXPLANATION = (
 def run(ctx: Ctx) -> None:
     from .c09 import rule_lc_position
     rule_lc_position(ctx)  # every orbit explorer steps with local_comp_graph
+    from .c09 import rule_lc_matrix_form
+    rule_lc_matrix_form(ctx)
     from ..rules import shapes as _shapes
     _shapes.rule_relabel_map_self(ctx)
     _shapes.rule_relabel_map_direction(ctx)
